@@ -38,6 +38,8 @@ const (
 	tgPlatform
 	tgMoveInput
 	tgAppCmdComment
+	tgSharedEdit
+	tgSharedShift
 	tgGenExtra
 	numToggles
 )
@@ -46,7 +48,7 @@ var toggleNames = []string{
 	"append-byte-to-f1", "shift-byte-f1-end-to-f2-start", "add-file-under-glob", "rename-file-under-glob",
 	"lib-command-comment-only", "lib-command-changes-output", "lib-declare-extra-output",
 	"lib-fingerprint-value", "lib-fingerprint-move-equals-sign", "app-alias-edge-to-direct-edge",
-	"edit-app-input", "edit-tool-input", "switch-platform", "move-gen-input-to-other-declared-name", "app-command-comment-only", "gen-declares-output-with-same-bytes-as-lib-extra",
+	"edit-app-input", "edit-tool-input", "switch-platform", "move-gen-input-to-other-declared-name", "app-command-comment-only", "edit-file-behind-symlinked-input-same-length", "shift-byte-between-files-behind-two-adjacent-symlinked-inputs", "gen-declares-output-with-same-bytes-as-lib-extra",
 }
 
 type wsState struct {
@@ -101,6 +103,18 @@ func (w wsState) source() *hist.Source {
 	if w.T[tgAddFile] {
 		s.Files["a/src/f3.txt"] = hist.File{Content: "N"}
 	}
+	// two adjacent inputs of lib (and libx) are symbolic links to files outside the glob
+	s1, s2 := "PQ", "R"
+	if w.T[tgSharedShift] {
+		s1, s2 = "P", "QR"
+	}
+	if w.T[tgSharedEdit] {
+		s1 = s1[:len(s1)-1] + "Z"
+	}
+	s.Files["a/shared/s1.txt"] = hist.File{Content: s1}
+	s.Files["a/shared/s2.txt"] = hist.File{Content: s2}
+	s.Files["a/src/e1.txt"] = hist.File{Link: "../shared/s1.txt"}
+	s.Files["a/src/e2.txt"] = hist.File{Link: "../shared/s2.txt"}
 	prefix := "lib"
 	if w.T[tgCmdOutput] {
 		prefix = "LIB2"
